@@ -123,11 +123,18 @@ Definition cont (one_rr : bool) (r : st * option Z) (ws : list wmsg) : result * 
       else let '(r, n) := drive one_rr s' ws in (r, S n)
   end.
 
-Lemma drive_cons : forall one_rr s w ws,
+Lemma drive_cons : forall one_rr s w ws, req_tsig s = false ->
   drive one_rr s (w :: ws) = cont one_rr (process_message s (from_wire one_rr w)) ws.
 Proof.
-  intros. cbn [drive]. unfold cont. destruct (process_message s (from_wire one_rr w)) as [s' [e|]]; reflexivity.
+  intros one_rr s w ws Hrq. cbn [drive]. unfold cont.
+  destruct (process_message s (from_wire one_rr w)) as [s' [e|]] eqn:Hp; [reflexivity|].
+  rewrite (process_req_tsig _ _ _ _ Hp), Hrq. reflexivity.
 Qed.
+
+Ltac solve_req :=
+  first [ reflexivity
+        | match goal with H : running ?s |- req_tsig ?s = false => apply H end
+        | assumption ].
 
 (* a later message of a running TCP transfer: process_message is just the loop *)
 Lemma process_running : forall s m, running s ->
@@ -183,7 +190,7 @@ Proof.
       pose proof (running_after_loop _ _ _ Hrun Hla Hda) as Hra.
       assert (Hrt : rdtype sa = rdtype s) by (apply loop_inv in Hla; tauto).
       inversion Hh as [|? ? Hw Hws]; subst.
-      rewrite drive_cons. unfold from_wire. rewrite group_true.
+      rewrite drive_cons by solve_req. unfold from_wire. rewrite group_true.
       rewrite process_running; [|exact Hra|apply Hw|rewrite Hrt; apply Hw].
       cbn [m_answer]. cbn [map concat] in Hrest.
       destruct (IH (w_records w) sa c' fin s1 s2) as [n Hn]; auto.
@@ -208,7 +215,7 @@ Proof.
     pose proof (running_after_loop _ _ _ Hrun Hla Hda) as Hra.
     assert (Hrt : rdtype sa = rdtype s) by (apply loop_inv in Hla; tauto).
     inversion Hh as [|? ? Hw Hws]; subst.
-    rewrite drive_cons. unfold from_wire. rewrite group_true.
+    rewrite drive_cons by solve_req. unfold from_wire. rewrite group_true.
     rewrite process_running; [|exact Hra|apply Hw|rewrite Hrt; apply Hw].
     cbn [m_answer].
     destruct (IH (w_records w) sa s1) as [n [z Hn]]; auto.
